@@ -41,6 +41,7 @@ type Ctx struct {
 	paths   int
 
 	copyChecked map[string]bool
+	deadErrs    *deadErrScan
 }
 
 func (c *Ctx) pkgPaths() []string {
